@@ -230,6 +230,8 @@ def spec_setitem_with_op(ex, ctx, outcome):
                  True if dc else z3.Or(L.is_scalar(rhs), L.is_Fun(rhs), L.is_Slice(rhs)), {'watch': {'operand': rhs}})
         sym = {'+': '+=', '-': '-=', '*': '*=', '/': '/='}.get(p[2])
         ex.prove('C07:%s:applies-the-operator-it-was-given' % n, ['C07', 'C14'], op == ex.str_lit(sym) if sym else False)
+        if p[1] == 'binop':
+            ex.prove('C07:%s:compound-assignment-applies-the-in-place-operator' % n, ['C07', 'C12', 'C14'], p[5] is True)
         # left operand is the element currently stored under the normalised key
         lr, dr = Val.lref(c), Val.dref(c)
         j = norm(intval(kc), h0.llen(lr))
